@@ -195,6 +195,30 @@ def vec_rule(rep, prog, cfg):
                     back.add(n.rsplit("::", 1)[-1])
         detail["backward_adaptors"] = sorted(back)
         ok = a_ok and pos_ok and push_ok and not back
+    # zip stops at the shorter side: pairing "frame i <-> command i for every i" needs the two lengths to be equal before it
+    # (a short reply must be an error, as in the tuple impls, not a shorter vector)
+    if len(zips) == 1:
+        from ..common import switch_atom
+        from ..cfg import Cfg, reach
+        g = Cfg(b)
+        eq_edges = []
+        for bb in range(len(b.blocks)):
+            a = switch_atom(b, bb)
+            if not a or a["kind"] != "cmp" or a["op"] not in ("Eq", "Ne"):
+                continue
+            srcs = []
+            for o in (a["lhs"], a["rhs"]):
+                lv, _ = fl.sources([op_local(o)] if op_local(o) is not None else [], through_call=lambda t, k=None: (0,), follow_mut=False)
+                is_len = any(x[0] == "call" and any(n.endswith("::len") for n in callee_names(b.blocks[x[1]]["t"])) for x in lv)
+                srcs.append({x[1] for x in lv if x[0] == "param"} if is_len else set())
+            if (srcs[0], srcs[1]) in (({1}, {2}), ({2}, {1})):
+                eq_edges.append((bb, a["true"] if a["op"] == "Eq" else a["false"], a["false"] if a["op"] == "Eq" else a["true"]))
+        guarded = False
+        for bb, eq_t, ne_t in eq_edges:
+            guarded = guarded or zips[0][0] not in reach(g.succs, [ne_t])
+        rep.check(guarded, rule, cfg + "/responses: lengths equal before zip", b.loc(b.blocks[zips[0][0]]["ts"]),
+                  "Vec<C>::responses zips commands with frames without first requiring `self.len() == frames.len()` (an equality test whose unequal "
+                  "edge cannot reach the zip): zip stops at the shorter side, so a reply with too few frames gives Ok with fewer responses than commands")
     rep.check(ok, rule, cfg + "/responses zip", b.loc(b.span),
               "Vec<C>::responses does not pair command i with frame i by one zip(self, frames) and push the results in order (%s)" % detail, detail=detail)
     b = d["command_list"]
@@ -367,4 +391,12 @@ def run(rep, progs, tier):
         tuple_rule(rep, prog, cfg)
         vec_rule(rep, prog, cfg)
         render_rule(rep, prog, cfg)
+        # "one block holding the N command lines": no line inside the block may itself be a framing word, so Command::build refuses
+        # all three (decided by the C07 machinery on the validator of Command::build)
+        from .C07 import build_validator, list_words_rule
+        V = build_validator(prog)
+        if V is None:
+            rep.fail("C13.render", cfg + "/framing words refused as commands", "mpd_protocol/src/command.rs", "validator of Command::build not found (failing closed)")
+        else:
+            list_words_rule(rep, prog, cfg, V, rule="C13.render")
         empty_rule(rep, prog, cfg)
